@@ -224,6 +224,9 @@ htp_status_t htp_gzip_decompressor_decompress(htp_decompressor_t *drec1, htp_tx_
             callback_rc = drec->super.callback(&dout);
             if (callback_rc != HTP_OK) {
                 htp_gzip_decompressor_end(drec);
+                // The block was refused; it must not be offered again.
+                drec->stream.avail_out = GZIP_BUF_SIZE;
+                drec->stream.next_out = drec->buffer;
                 return callback_rc;
             }
         }
@@ -260,6 +263,9 @@ restart:
             }
             if (callback_rc != HTP_OK) {
                 htp_gzip_decompressor_end(drec);
+                // The block was refused; it must not be offered again.
+                drec->stream.avail_out = GZIP_BUF_SIZE;
+                drec->stream.next_out = drec->buffer;
                 return callback_rc;
             }
 
@@ -345,6 +351,9 @@ restart:
             }
             if (callback_rc != HTP_OK) {
                 htp_gzip_decompressor_end(drec);
+                // The block was refused; it must not be offered again.
+                drec->stream.avail_out = GZIP_BUF_SIZE;
+                drec->stream.next_out = drec->buffer;
                 return callback_rc;
             }
             drec->stream.avail_out = GZIP_BUF_SIZE;
